@@ -339,3 +339,50 @@ Example C06_recover_example :
   = [EvTok (mkTok "CH"%string [ "a"%char ] 0 1 1 1 2 1); EvErr 1 1 2; EvErr 2 1 3;
      EvTok (mkTok "CH"%string [ "b"%char ] 3 2 1 2 2 4)]%Z.
 Proof. vm_compute. reflexivity. Qed.
+
+(* ---- round 12: tree coordinates on the Earley routes -------------------------------------------------------
+   ForestToParseTree calls the same ParseTreeBuilder callbacks (PropagatePositions around the Shape chain) as the
+   LALR driver, bottom-up on the derivation it selected.  Assumption about the selection: NONE beyond "d is a
+   derivation tree whose leaves are tokens of the lexer" - any stored derivation, whatever priorities and
+   ambiguity resolution chose.  Basic lexer: every token and every meta triple is an exact coordinate. *)
+From LV Require Import Pos.TreeAny_proofs.
+From Coq Require Import Lia.
+
+Theorem C06_tree_coords_exact_earley {A term : Type} (eqb : A -> A -> bool) (nl : A) (rr : rule -> rrec) (mp : bool)
+  (scan : list term -> list A -> Z -> Z -> option (nat * term)) (ignore newline_types : term -> bool)
+  (T : list A) (a e : nat) ts o (d : Driver.dtree (token A term)) v :
+  (a <= e)%nat -> (e <= List.length T)%nat ->
+  (forall h (p n : nat) ty, scan h T (Z.of_nat p) (Z.of_nat e) = Some (n, ty) -> (p + n <= e)%nat) ->
+  lex_slice eqb nl scan ignore newline_types T (Z.of_nat a) (Z.of_nat e) None = (ts, o) ->
+  (forall t, In t (Driver.yield _ d) -> In t ts) ->
+  tree_of rr mp d = Some v ->
+  Forall (tok_ok eqb nl T a e) (vtokens v) /\ Forall (trip_exact eqb nl T a e) (vtrips v).
+Proof. exact (tree_coords_exact_earley eqb nl rr mp scan ignore newline_types T a e ts o d v). Qed.
+Print Assumptions C06_tree_coords_exact_earley.
+
+(* dynamic lexers: tokens are created in xearley.scan from the text position (Gen/DynStep.v); in the tree of any
+   derivation over such tokens every token is one of them (value T[s:e], start coordinates exact, end = last
+   character + one column: C06_dyn_token_coords) and every meta triple is the start of one - an exact coordinate -
+   or the end of one *)
+Theorem C06_dyn_tree_coords {A term : Type} (eqb : A -> A -> bool) (nl : A) (isnl : A -> bool) (rr : rule -> rrec)
+  (mp : bool) (T : list A) (d : Driver.dtree (token A term)) v :
+  (forall x, isnl x = eqb x nl) ->
+  Forall (dyn_tok isnl T) (Driver.yield _ d) -> tree_of rr mp d = Some v ->
+  Forall (dyn_tok isnl T) (vtokens v) /\ Forall (dyn_trip eqb nl T) (vtrips v).
+Proof. exact (fun H => dyn_tree_coords eqb nl isnl rr mp H T d v). Qed.
+Print Assumptions C06_dyn_tree_coords.
+
+(* Non-vacuity: pair: "(" NUM ")" over the dynamic scanner's tokens of "x\n(7)" (offsets 2..5, line 2) *)
+Example C06_dyn_tree_example :
+  let T := txt "x\010(7)" in
+  let isnl := isnl_str Ascii.eqb anl in
+  let d := Driver.Node ex4_rule [Driver.Leaf (dyn_token isnl "LPAR"%string T 2 3); Driver.Leaf (dyn_token isnl "NUM"%string T 3 4);
+                                 Driver.Leaf (dyn_token isnl "RPAR"%string T 4 5)] in
+  Forall (dyn_tok (term:=string) isnl T) (Driver.yield _ d) /\
+  tree_of ex4_rr true d =
+    Some (VTree "pair" (mkMeta (Some (2, 2, 1)) (Some (5, 2, 4)) (Some (2, 2, 1)) (Some (5, 2, 4)))%Z
+            [VTok (mkTok "NUM"%string [ "7"%char ] 3 2 2 2 3 4)]).
+Proof.
+  split; [|vm_compute; reflexivity].
+  repeat constructor; eexists _, _, _; (split; [|split; [|reflexivity]]); cbn; lia.
+Qed.
